@@ -106,47 +106,100 @@ func runCheck(prop, tier, repo, verif string, verbose, noReplay bool, evOut stri
 	if err != nil {
 		return engineFail("load", err)
 	}
-	names := functionsFor(P, prop)
-	vcs, errs := buildVCs(P, names)
-	if len(errs) > 0 {
-		var ss []string
-		for _, e := range errs {
-			ss = append(ss, e.Error())
-		}
-		return engineFail("contract-resolves", fmt.Errorf("%s", strings.Join(ss, " | ")))
-	}
-	if lv, err := lemmaVC(P, prop); err != nil {
-		return engineFail("lemma", err)
-	} else if lv != nil {
-		vcs = append(vcs, lv)
-	}
-	if len(vcs) == 0 {
-		return engineFail("no-functions", fmt.Errorf("no function under contract serves %s", prop))
-	}
-
-	// select obligations of this property
-	var obls []*Obligation
-	vcOf := map[*Obligation]*VC{}
-	perFunc := map[string]int{}
-	for _, vc := range vcs {
-		for _, o := range vc.obls {
-			if o.Canary || hasProp(o.Props, prop) {
-				obls = append(obls, o)
-				vcOf[o] = vc
-				if !o.Canary {
-					perFunc[vc.name]++
-				}
-			}
-		}
-	}
 	scratch, err := os.MkdirTemp("", "govc-"+prop+"-")
 	if err != nil {
 		return engineFail("scratch", err)
 	}
 	defer os.RemoveAll(scratch)
-	solveAll(vcs, obls, vcOf, tier, scratch)
-
 	known := loadKnown(verif)
+
+	var vcs []*VC
+	var obls []*Obligation
+	var vcOf map[*Obligation]*VC
+	var perFunc map[string]int
+	// attempt generates and discharges everything under the current choice of alternative contracts
+	attempt := func() (failing int, what string, err error) {
+		names := functionsFor(P, prop)
+		var errs []error
+		vcs, errs = buildVCs(P, names)
+		if len(errs) > 0 {
+			var ss []string
+			for _, e := range errs {
+				ss = append(ss, e.Error())
+			}
+			return 0, "contract-resolves", fmt.Errorf("%s", strings.Join(ss, " | "))
+		}
+		if lv, err := lemmaVC(P, prop); err != nil {
+			return 0, "lemma", err
+		} else if lv != nil {
+			vcs = append(vcs, lv)
+		}
+		if len(vcs) == 0 {
+			return 0, "no-functions", fmt.Errorf("no function under contract serves %s", prop)
+		}
+		obls = nil
+		vcOf = map[*Obligation]*VC{}
+		perFunc = map[string]int{}
+		for _, vc := range vcs {
+			for _, o := range vc.obls {
+				if o.Canary || hasProp(o.Props, prop) {
+					obls = append(obls, o)
+					vcOf[o] = vc
+					if !o.Canary {
+						perFunc[vc.name]++
+					}
+				}
+			}
+		}
+		solveAll(vcs, obls, vcOf, tier, scratch)
+		for _, o := range obls {
+			if o.Canary {
+				if o.Result == "unsat" {
+					failing++
+				}
+				continue
+			}
+			if o.Result != "unsat" && matchKnown(known, prop, o.Name) == nil {
+				failing++
+			}
+		}
+		return failing, "", nil
+	}
+	failing, what, err := attempt()
+	if err != nil {
+		return engineFail(what, err)
+	}
+	variantNote := "default (A) contracts everywhere"
+	if failing > 0 {
+		// functions that keep a redundant check on both sides of a call carry an alternative
+		// contract (name@B); the property holds if everything verifies under one consistent choice
+		alts := P.alternatives()
+		tried := false
+		for mask := 1; mask < (1<<len(alts)) && len(alts) <= 4; mask++ {
+			P.variant = map[string]string{}
+			var chosen []string
+			for i, a := range alts {
+				if mask&(1<<i) != 0 {
+					P.variant[a] = "B"
+					chosen = append(chosen, a+"@B")
+				}
+			}
+			tried = true
+			f2, _, err2 := attempt()
+			if err2 == nil && f2 == 0 {
+				failing = 0
+				variantNote = "alternative contracts used: " + strings.Join(chosen, ", ")
+				break
+			}
+		}
+		if failing > 0 && tried {
+			P.variant = map[string]string{}
+			if _, what, err := attempt(); err != nil {
+				return engineFail(what, err)
+			}
+		}
+	}
+
 	violations := 0
 	discharged := 0
 	total := 0
@@ -277,6 +330,7 @@ func runCheck(prop, tier, repo, verif string, verbose, noReplay bool, evOut stri
 			"vacuity_canaries_failed":  canaryBad,
 			"obligation_results":       oblRecords,
 			"integer_semantics":        "mathematical Int with explicit two's-complement wrap per static Go type",
+			"contract_variants":        variantNote,
 			"bounded":                  []string{},
 		}}
 	writeJSON(evPath, ev)
